@@ -79,6 +79,8 @@ class TArr:
         """Layout only: recorded as a node so that provenance can be compared modulo layout (see strip)."""
         if len(shape) == 1 and isinstance(shape[0], tuple):
             shape = shape[0]
+        if len(shape) == 1 and isinstance(shape[0], int) and shape[0] == -1:
+            return TArr(("reshape", self.node, _key((-1,))), (self.size,))
         return TArr(("reshape", self.node, _key(tuple(shape))), tuple(shape))
 
     def __matmul__(self, o):
@@ -141,6 +143,11 @@ class TArr:
 
     def getitem(self, idx):
         t = idx if isinstance(idx, tuple) else (idx,)
+        if any(i is Ellipsis for i in t):
+            k = [j for j, i in enumerate(t) if i is Ellipsis]
+            if len(k) > 1:
+                raise Raised("IndexError", "an index can only have a single ellipsis")
+            t = t[:k[0]] + (slice(None),) * (len(self.shape) - (len(t) - 1)) + t[k[0] + 1:]
         if len(t) > len(self.shape):
             raise Raised("IndexError", "too many indices")
         t = t + (slice(None),) * (len(self.shape) - len(t))
